@@ -55,7 +55,7 @@ type failStore struct {
 	fails []map[string]any
 }
 
-var classFields = []string{"first_narrower", "second_signed", "second_is_folded_sum", "rewidening_changes_value", "output", "op", "signed", "n_class", "consumer", "a_neg", "b_neg", "a_top", "b_top", "aform", "bform",
+var classFields = []string{"first_narrower", "second_signed", "second_is_folded_sum", "rewidening_changes_value", "nonneg_value_with_top_bit_of_its_mpa_size_set", "output", "op", "signed", "n_class", "consumer", "a_neg", "b_neg", "a_top", "b_top", "aform", "bform",
 	"overflow", "b_zero", "count_ge_width", "stage", "a_wide", "b_wide", "res_top"}
 
 func (fs *failStore) add(o *hxlib.Out, sig string, d map[string]any) {
